@@ -67,10 +67,18 @@ def tyEq (a b : Ty) : Bool :=
   | .typ t => (match b with | .typ t' => tyEq t t' | _ => false)
   | .sensitive t => (match b with | .sensitive t' => tyEq t t' | _ => false)
   | .iterator t => (match b with | .iterator t' => tyEq t t' | _ => false)
+  | .callable p r k =>
+      -- CallableType.Equals (as repaired in /repo 3d635fb): the three parts pairwise, an absent part only equals an absent part
+      (match b with
+       | .callable p' r' k' =>
+           (match p, p' with | none, none => true | some x, some y => tyEq x y | _, _ => false) &&
+           (match r, r' with | none, none => true | some x, some y => tyEq x y | _, _ => false) &&
+           (match k, k' with | none, none => true | some x, some y => tyEq x y | _, _ => false)
+       | _ => false)
   | .iterable t => (match b with | .iterable t' => tyEq t t' | _ => false)
   | .object p => (match b with | .object q => p == q | _ => false)
 termination_by a.w + b.w
-decreasing_by all_goals (simp_wf; simp only [Ty.w, Ty.wl, Ty.wm] at *; omega)
+decreasing_by all_goals (simp_wf; simp only [Ty.w, Ty.wl, Ty.wm, Ty.wo] at *; omega)
 /-- pointwise, for lists already known to have equal length (a shorter second list ends the Go loop with a fault that the
     length test in front excludes) -/
 def tyEqL (as bs : List Ty) : Bool :=
@@ -176,6 +184,7 @@ def generalize : Ty → Ty
   | .pattern _ => .pattern []
   | .regexp _ => .regexp ""
   | .runtime _ _ _ => .runtime "" "" none
+  | .callable _ _ _ => .callable none none none
   | .tspan _ => .tspan Rng.all
   | .tstamp _ => .tstamp tstampAll
   | .object _ => .object none
@@ -215,6 +224,7 @@ def genericType : Ty → Ty
   | .tuple ts g => .tuple (generalizeL ts) g
   | .variant ts => mkVariant (uniqueTy (generalizeL ts))
   | .runtime _ _ _ => .runtime "" "" none
+  | .callable _ _ _ => .callable none none none
   | t => t
 def generalizeL : List Ty → List Ty
   | [] => []
